@@ -7,6 +7,8 @@ digits. No repository helpers.
 
   tp        = |set(y_pred[:k]) & set(y_true)|,  fp = len(y_pred[:k]) - tp,
   fn        = len(y_true) - tp
+  rel_i     = 1 iff y_pred[i] is in y_true and did not occur at a rank < i
+              (a repeated id is retrieved once, at its first occurrence)
   precision = tp / len(y_pred[:k])         recall = tp / len(y_true)
   f1        = 2 p r / (p + r)  (0 when p + r == 0)
   accuracy  = [tp > 0]
@@ -48,7 +50,13 @@ def row_metrics(y_true_row, y_pred_row, k):
   ranking = list(y_pred_row)
   top = ranking if k is None else ranking[:k]
   n_t, n_p = len(truth), len(top)
-  rel = [1 if item in truth else 0 for item in top]
+  # Set semantics: an item can be retrieved once. A ranking that repeats an id
+  # scores it at its first occurrence; the later copies are positions that
+  # retrieve nothing new (they still occupy a rank: n_p counts positions).
+  rel, seen = [], set()
+  for item in top:
+    rel.append(1 if (item in truth and item not in seen) else 0)
+    seen.add(item)
   tp = sum(rel)
   fp, fn = n_p - tp, n_t - tp
   c = cm.Conv()
@@ -131,6 +139,23 @@ def oracle(y_true, y_pred, k_list):
       alt[m].append(alts[m])
   out['_alt'] = alt
   return out
+
+
+def repeated_hit_within(y_true, y_pred, k):
+  """Input class: some ranking repeats a RELEVANT id within its first k items
+  (k None / inf = the whole ranking)."""
+  for t, p in zip(y_true, y_pred):
+    truth, seen = set(t), set()
+    top = list(p) if (k is None or k == float('inf')) else list(p)[:k]
+    for item in top:
+      if item in truth and item in seen:
+        return True
+      seen.add(item)
+  return False
+
+
+def has_repeated_id(y_pred):
+  return any(len(set(p)) < len(list(p)) for p in y_pred)
 
 
 def as_rows(y, input_type):
